@@ -363,6 +363,17 @@ class Miller(Vector3d):
             f"{name} {shape}, point group {symmetry}, {coordinate_format}\n" f"{data}"
         )
 
+    def __neg__(self) -> Self:
+        m = self.__class__(xyz=-self.data, phase=self.phase)
+        m.coordinate_format = self.coordinate_format
+        return m
+
+    def squeeze(self) -> Self:
+        """Return a new instance with length-1 dimensions removed."""
+        m = self.__class__(xyz=np.atleast_2d(self.data.squeeze()), phase=self.phase)
+        m.coordinate_format = self.coordinate_format
+        return m
+
     def __getitem__(self, key) -> Self:
         """NumPy fancy indexing of vectors."""
         m = self.__class__(xyz=self.data[key], phase=self.phase).deepcopy()
